@@ -47,7 +47,10 @@ def readRefPfx (j : Json) : Except String Spec.RefPfx := do
 
 def readRefAttr (j : Json) : Except String Spec.RefAttr := do
   let code ← getNat j "code"
-  let v ← readAttrVal code (← j.getObjVal? "value")
+  let jv ← j.getObjVal? "value"
+  let v ← match getHex jv "raw" with
+    | .ok b => pure (AttrVal.raw b)
+    | .error _ => readAttrVal code jv
   pure { code := code, val := v, ext := getBoolD j "ext" false, partialBit := getBoolD j "partial" false }
 
 /-- the reference encoder's bytes for a structured message and what C09 says decoding them must return.
